@@ -670,24 +670,8 @@ def rule_program_keys(cm, rep, rid):
     src = norm(vp.node)
     if ok and 'head' in src and 'len(' in src:
         rep.ok(rid, 'visitProgram:key', 'clauses grouped under (head name, number of head arguments)', vp.loc())
-    cp = cm.comp.methods.get('compile_program')
-    cf = cm.comp.methods.get('compile_function')
-    if cp is None or cf is None:
-        raise AnalysisError('anchor vanished: compile_program/compile_function')
-    loops = [s for s in own_nodes_ordered(cp.node) if isinstance(s, ast.For) and '.items()' in norm(s.iter)]
-    calls = [c for s in loops for c in ast.walk(s) if isinstance(c, ast.Call) and is_self_attr(c.func, 'compile_function')]
-    direct = [c for c in calls if next((p for p in parents(c) if isinstance(p, (ast.For, ast.While, ast.ListComp, ast.GeneratorExp))), None) in loops]
-    if len(loops) == 1 and len(calls) == 1 and len(direct) == 1:
-        rep.ok(rid, 'compile_program', 'one function per key of the program dictionary', cp.loc())
-    else:
-        rep.violation(rid, 'compile_program', 'compile_program does not emit exactly one function per (name, arity) key', cp.loc())
-    fsrc = norm(cf.node)
-    p = cf.params[1]
-    if re.search(r'range\(%s\[1\]\)' % re.escape(p), fsrc) and re.search(r'YPCodeFunction\(%s\[0\]' % re.escape(p), fsrc):
-        rep.ok(rid, 'compile_function', 'name = key[0], one parameter per position of key[1]', cf.loc())
-    else:
-        nm = fl.field('yp_generator.YPCodeFunction', 'args')
-        rep.violation(rid, 'compile_function', 'the emitted function does not take its name and arity from the (name, arity) key', cf.loc())
+    from .rules_clause import rule_program_structure
+    rule_program_structure(cm, rep, rid + 'p')
 
 
 # ---------------------------------------------------------------------------------------------
@@ -1174,200 +1158,6 @@ def rule_variable_coverage(cm, rep, rid):
                 rep.violation(rid, key, 'variables occurring in %s.%s are not collected: they are used in the generated code without '
                               'being declared (NameError at run time) ' % (c.name, fld), prop.loc())
     rep.minimum('child fields with variables', n, 10)
-
-
-def rule_declare_before_use(cm, rep, rid):
-    rep.rule(rid, 'compile_function_body collects the free variables of the head functor and of the body, turns each into a '
-                  'declaration, and returns aliases + declarations before the code that contains the body')
-    f = cm.comp.methods.get('compile_function_body')
-    if f is None:
-        raise AnalysisError('anchor vanished: compile_function_body')
-    rets = [s for s in own_nodes_ordered(f.node) if isinstance(s, ast.Return) and s.value is not None]
-    if len(rets) != 1:
-        raise AnalysisError('compile_function_body has %d returns' % len(rets))
-    parts = []
-
-    def flat(e):
-        if isinstance(e, ast.BinOp) and isinstance(e.op, ast.Add):
-            flat(e.left)
-            flat(e.right)
-        else:
-            parts.append(e)
-    flat(rets[0].value)
-    defs = {}
-    for s in own_nodes_ordered(f.node):
-        if isinstance(s, ast.Assign) and isinstance(s.targets[0], ast.Name):
-            defs[s.targets[0].id] = s.value
-
-    def origin(e, depth=0):
-        t = norm(e)
-        if isinstance(e, ast.Name) and e.id in defs and depth < 5:
-            return t + ' = ' + origin(defs[e.id], depth + 1)
-        if isinstance(e, ast.Call):
-            return t + ''.join(' <- ' + origin(a, depth + 1) for a in e.args if isinstance(a, ast.Name) and depth < 5)
-        return t
-    texts = [origin(p) for p in parts]
-    body_idx = [i for i, t in enumerate(texts) if 'compile_body' in t]
-    decl_idx = [i for i, t in enumerate(texts) if 'compile_free_variable_declarations' in t]
-    key = f.qname
-    if len(body_idx) != 1:
-        rep.violation(rid, key + ':body', 'the clause body is emitted %d times' % len(body_idx), f.loc(rets[0]))
-        return
-    srcs = ' '.join(texts[i] for i in decl_idx)
-    covers_head = 'head' in srcs
-    covers_body = '.body' in srcs or 'clause.body' in srcs
-    if len(decl_idx) >= 2 and covers_head and covers_body and max(decl_idx) < body_idx[0]:
-        rep.ok(rid, key, 'declarations for head and body variables precede the body code', f.loc(rets[0]))
-    else:
-        rep.violation(rid, key, 'fresh-variable declarations do not cover head and body or do not precede the code that uses them '
-                      '(order: %s)' % [norm(p) for p in parts], f.loc(rets[0]))
-    if body_idx[0] != len(parts) - 1:
-        rep.violation(rid, key + ':order', 'code follows the body of the clause', f.loc(rets[0]))
-    # push/pop balance
-    src = norm(f.node)
-    if src.count('self.push_bound_vars(') == src.count('self.pop_bound_vars()'):
-        rep.ok(rid, key + ':scope', '%d pushes, %d pops of the bound-variable scope' % (src.count('self.push_bound_vars('), src.count('self.pop_bound_vars()')), f.loc())
-    else:
-        rep.violation(rid, key + ':scope', 'pushes and pops of the bound-variable scope do not balance: variables of one clause are '
-                      'taken as already declared in the next', f.loc())
-
-
-def rule_head_arguments(cm, rep, rid):
-    rep.rule(rid, 'the two functions that read the head-alias table iterate over every argument position with complementary '
-                  'tests: a position is either aliased (V = argN) or unified (unify(argN, term)), never both, never neither')
-    a = cm.comp.methods.get('compile_clause_head_variable_arguments')
-    u = cm.comp.methods.get('compile_arg_list_unification')
-    if a is None or u is None:
-        raise AnalysisError('anchor vanished: head-argument functions')
-
-    def test_of(f):
-        for s in own_nodes_ordered(f.node):
-            if isinstance(s, ast.If) and 'head_args_by_pos' in norm(s.test):
-                return s
-        return None
-    ta, tu = test_of(a), test_of(u)
-    if ta is None or tu is None:
-        raise AnalysisError('head-alias tests not found')
-    def polarity(t):
-        e = t.test
-        if isinstance(e, ast.Compare) and len(e.ops) == 1 and isinstance(e.comparators[0], ast.Constant) and e.comparators[0].value is None:
-            return 'set' if isinstance(e.ops[0], (ast.NotEq, ast.IsNot)) else 'unset'
-        if isinstance(e, ast.UnaryOp) and isinstance(e.op, ast.Not):
-            return 'unset'
-        return 'set'
-    pa, pu = polarity(ta), polarity(tu)
-    if pa == 'set' and pu == 'unset':
-        rep.ok(rid, 'head-args:tests', 'alias iff the table entry is set, unify iff it is not', a.loc(ta))
-    else:
-        rep.violation(rid, 'head-args:tests', 'the alias test (%s) and the unification test (%s) on the head-alias table are not '
-                      'complementary: a head argument is bound twice or not at all' % (pa, pu), a.loc(ta))
-    # both iterate over all positions
-    for f in (a, u):
-        loops = [s for s in own_nodes_ordered(f.node) if isinstance(s, ast.For) and 'range(' in norm(s.iter) and 'len(' in norm(s.iter)]
-        if loops:
-            rep.ok(rid, '%s:range' % f.name, 'iterates over %s' % norm(loops[0].iter), f.loc(loops[0]))
-        else:
-            rep.violation(rid, '%s:range' % f.name, 'does not iterate over every head argument position', f.loc())
-    # head unification is folded around the body: the loop wraps code = compile_unification(..., code)
-    src = norm(u.node)
-    if re.search(r'code = self\.compile_unification\([^)]*code\)', src) and 'return code' in src:
-        rep.ok(rid, 'head-args:wrap', 'head unifications are folded around the body code', u.loc())
-    else:
-        rep.violation(rid, 'head-args:wrap', 'head unifications are not wrapped around the body code', u.loc())
-    # only once-occurring plain variables are aliased
-    fnd = cm.comp.methods.get('find_clause_head_variable_arguments')
-    if fnd is not None:
-        s2 = norm(fnd.node)
-        if 'varcount' in s2 and '> 1' in s2 and 'isinstance(args[i], VariableTerm)' in s2:
-            rep.ok(rid, 'head-args:once', 'variables occurring more than once in the head are unified, not aliased', fnd.loc())
-        else:
-            rep.violation(rid, 'head-args:once', 'repeated head variables may be aliased instead of unified: p(X, X) would accept p(a, b)', fnd.loc())
-
-
-def _mutated_params(cm, f, seen=None):
-    """parameters of f that f (or a callee it forwards them to) mutates in place"""
-    from .callgraph import CallGraph, arg_for_param
-    seen = seen if seen is not None else set()
-    if f in seen:
-        return set()
-    seen.add(f)
-    out = set()
-    params = set(f.params[1:] if f.is_method else f.params)
-    for x in own_nodes_ordered(f.node):
-        tgt = None
-        if isinstance(x, ast.Call) and isinstance(x.func, ast.Attribute) and x.func.attr in (
-                'append', 'add', 'update', 'extend', 'insert', 'setdefault', 'pop', 'remove', 'discard', 'clear'):
-            tgt = x.func.value
-        elif isinstance(x, ast.Subscript) and isinstance(x.ctx, (ast.Store, ast.Del)):
-            tgt = x.value
-        elif isinstance(x, ast.AugAssign):
-            tgt = x.target
-        if isinstance(tgt, ast.Name) and tgt.id in params:
-            out.add(tgt.id)
-        if isinstance(x, ast.Call) and is_self_attr(x.func) and f.cls is not None:
-            callee = cm.repo.lookup_method(f.cls, x.func.attr)
-            if callee is not None:
-                sub = _mutated_params(cm, callee, seen)
-                for q in sub:
-                    a = arg_for_param(x, callee, q)
-                    if isinstance(a, ast.Name) and a.id in params:
-                        out.add(a.id)
-    return out
-
-
-def rule_per_clause_stateless(cm, rep, rid):
-    rep.rule(rid, 'the code of a clause is a function of that clause alone: the per-clause compile function receives no '
-                  'accumulator that it (or a callee) mutates, and every container field of the compiler that is mutated while a '
-                  'clause is compiled is reset at the start of the clause or pushed and popped in balance')
-    f = cm.comp.methods.get('compile_function_body')
-    if f is None:
-        raise AnalysisError('anchor vanished: compile_function_body')
-    extra = f.params[2:]
-    mp = _mutated_params(cm, f)
-    bad = [p for p in extra if p in mp]
-    for p in bad:
-        rep.violation(rid, '%s:%s' % (f.qname, p), 'compile_function_body receives the accumulator %s, which is updated while one clause is '
-                      'compiled and read while the next one is: what a clause compiles to depends on the clauses before it (a variable '
-                      'declared for an earlier clause is not declared again, so clause activations share it)' % p, f.loc())
-    # container fields mutated in the call tree of the per-clause function
-    tree = []
-    stack = [f]
-    while stack:
-        g = stack.pop()
-        if g in tree:
-            continue
-        tree.append(g)
-        for x in own_nodes(g.node):
-            if isinstance(x, ast.Call) and is_self_attr(x.func) and g.cls is not None:
-                c = cm.repo.lookup_method(g.cls, x.func.attr)
-                if c is not None and c.name not in ('_debug',):
-                    stack.append(c)
-    mutated, reset, popped = {}, set(), set()
-    for g in tree:
-        for x in own_nodes_ordered(g.node):
-            if isinstance(x, ast.Call) and isinstance(x.func, ast.Attribute) and is_self_attr(x.func.value):
-                if x.func.attr in ('append', 'add', 'update', 'extend', 'insert', 'setdefault'):
-                    mutated.setdefault(x.func.value.attr, (g, x))
-                if x.func.attr in ('pop',):
-                    popped.add(x.func.value.attr)
-            if isinstance(x, ast.Subscript) and isinstance(x.ctx, ast.Store) and is_self_attr(x.value):
-                mutated.setdefault(x.value.attr, (g, x))
-            if isinstance(x, ast.Assign):
-                for t in x.targets:
-                    if is_self_attr(t) and isinstance(x.value, (ast.List, ast.Dict, ast.Set, ast.Call)):
-                        reset.add(t.attr)
-    for fld, (g, x) in sorted(mutated.items()):
-        key = '%s.%s' % (cm.comp.qname, fld)
-        if fld in reset:
-            rep.ok(rid, key, 'reset for every clause', g.loc(x))
-        elif fld in popped:
-            rep.ok(rid, key, 'pushed and popped while a clause is compiled', g.loc(x))
-        else:
-            rep.violation(rid, key, 'the compiler field %s grows while clauses are compiled and is never reset: later clauses are '
-                          'compiled differently from earlier ones' % fld, g.loc(x))
-    if not bad:
-        rep.ok(rid, f.qname, 'no accumulator parameter; %d container field(s) examined' % len(mutated), f.loc())
-
 
 
 def rule_unquote_delimiters(cm, rep, rid):
